@@ -219,10 +219,69 @@ type fieldAccess struct {
 	in    ssa.Instruction
 	field string
 	write bool
+	// the write is made by a shared tail helper that is handed the receiver's own mutex and a pointer to the field and
+	// stores through the pointer inside its Lock…Unlock (`setCost(&e.mut, &e.cost, &new.cost)`): write-locked by construction
+	viaLockedHelper bool
+}
+
+var lockedHelperCache = map[*ssa.Function][]int{}
+
+// lockedStoreHelper: a module function with a *sync.(RW)Mutex parameter that is balanced on exactly that mutex and stores
+// through pointer parameters only while it holds it for writing. Returns the index of the mutex parameter followed by the
+// indices of the pointer parameters written; nil otherwise.
+func lockedStoreHelper(p *Prog, sc *ssa.Function) []int {
+	if r, ok := lockedHelperCache[sc]; ok {
+		return r
+	}
+	lockedHelperCache[sc] = nil
+	if sc == nil || len(sc.Blocks) == 0 || sc.Pkg == nil || !strings.HasPrefix(sc.Pkg.Pkg.Path(), modPath) {
+		return nil
+	}
+	mi := -1
+	for i, q := range sc.Params {
+		if t := q.Type().String(); t == "*sync.RWMutex" || t == "*sync.Mutex" {
+			mi = i
+		}
+	}
+	if mi < 0 {
+		return nil
+	}
+	la := analyseLocks(p, sc, lkU)
+	if la.mutex != "P:"+paramName(sc.Params[mi]) || len(la.errs) > 0 {
+		return nil
+	}
+	out := []int{mi}
+	for _, b := range sc.Blocks {
+		for _, in := range b.Instrs {
+			st, ok := in.(*ssa.Store)
+			if !ok {
+				continue
+			}
+			par, ok := st.Addr.(*ssa.Parameter)
+			if !ok {
+				continue
+			}
+			if la.state[in] != lkW {
+				return nil // writes through a pointer without holding the lock
+			}
+			for i, q := range sc.Params {
+				if q == par {
+					out = append(out, i)
+				}
+			}
+		}
+	}
+	if len(out) < 2 {
+		return nil
+	}
+	lockedHelperCache[sc] = out
+	return out
 }
 
 // fieldAccesses of receiver fields in a method (loads and stores through FieldAddr on the receiver; map updates / lookups / ranges count
 // as write / read of the field that holds the map).
+var progForLocks *Prog
+
 func fieldAccesses(fn *ssa.Function) []fieldAccess {
 	var out []fieldAccess
 	if fn.Signature.Recv() == nil {
@@ -238,31 +297,46 @@ func fieldAccesses(fn *ssa.Function) []fieldAccess {
 			name := fieldName(fa.X.Type(), fa.Field)
 			for _, r := range *fa.Referrers() {
 				switch u := r.(type) {
+				case *ssa.Call:
+					// &recv.field handed to a locked-store helper together with &recv.<mutex>
+					if hp := lockedStoreHelper(progForLocks, u.Call.StaticCallee()); hp != nil {
+						mutOK := false
+						if hp[0] < len(u.Call.Args) {
+							if mfa, ok := u.Call.Args[hp[0]].(*ssa.FieldAddr); ok && mfa.X == ssa.Value(recv) {
+								mutOK = true
+							}
+						}
+						for _, di := range hp[1:] {
+							if mutOK && di < len(u.Call.Args) && u.Call.Args[di] == ssa.Value(fa) {
+								out = append(out, fieldAccess{fn, u, name, true, true})
+							}
+						}
+					}
 				case *ssa.Store:
 					if u.Addr == ssa.Value(fa) {
-						out = append(out, fieldAccess{fn, u, name, true})
+						out = append(out, fieldAccess{fn, u, name, true, false})
 					}
 				case *ssa.UnOp:
-					out = append(out, fieldAccess{fn, u, name, false})
+					out = append(out, fieldAccess{fn, u, name, false, false})
 					// what is done with a loaded map counts as access to the field
 					if _, isMap := u.Type().Underlying().(*types.Map); isMap {
 						for _, rr := range *u.Referrers() {
 							switch m := rr.(type) {
 							case *ssa.MapUpdate:
-								out = append(out, fieldAccess{fn, m, name, true})
+								out = append(out, fieldAccess{fn, m, name, true, false})
 							case *ssa.Lookup:
-								out = append(out, fieldAccess{fn, m, name, false})
+								out = append(out, fieldAccess{fn, m, name, false, false})
 							case *ssa.Range:
-								out = append(out, fieldAccess{fn, m, name, false})
+								out = append(out, fieldAccess{fn, m, name, false, false})
 								// the iteration itself (Next) happens later: find the Next instructions
 								for _, nr := range *m.Referrers() {
 									if nx, ok := nr.(*ssa.Next); ok {
-										out = append(out, fieldAccess{fn, nx, name, false})
+										out = append(out, fieldAccess{fn, nx, name, false, false})
 									}
 								}
 							case ssa.CallInstruction:
 								if bi, ok := m.Common().Value.(*ssa.Builtin); ok {
-									out = append(out, fieldAccess{fn, m, name, bi.Name() == "delete"})
+									out = append(out, fieldAccess{fn, m, name, bi.Name() == "delete", false})
 								}
 							}
 						}
@@ -278,6 +352,7 @@ func c19r1(c *Ctx) {
 	const rule = "C19-R1"
 	c.Rule(rule, "lock discipline: balanced on every path; guarded fields read under >= read lock and written under the write lock", 60)
 	c.Rule("C19-R2", "one schedule per execution: read lock first and released only by defer; all guarded fields rewritten in one write-locked region", 30)
+	progForLocks = c.P
 	tm := typesWithMutex(c.P)
 	c.Count("types with a mutex", len(tm))
 	var names []*types.Named
@@ -316,10 +391,14 @@ func c19r1(c *Ctx) {
 		guarded := map[string]bool{}
 		for _, m := range ms {
 			la := las[m]
-			if la.mutex == "" {
-				continue
-			}
 			for _, a := range fieldAccesses(m) {
+				if a.viaLockedHelper && la.state[a.in] == lkU && a.field != mutField {
+					guarded[a.field] = true
+					continue
+				}
+				if la.mutex == "" {
+					continue
+				}
 				if a.write && a.field != mutField && la.state[a.in] == lkW {
 					guarded[a.field] = true
 				}
@@ -351,6 +430,13 @@ func c19r1(c *Ctx) {
 				st := la.state[a.in]
 				if la.mutex == "" {
 					st = lkU
+				}
+				if a.viaLockedHelper {
+					if st == lkU {
+						st = lkW // the helper takes the write lock itself
+					} else {
+						st = lkX // calling it while the lock is held would self-deadlock
+					}
 				}
 				okHere := st == lkW || (st == lkR && need == lkR)
 				if okHere {
@@ -421,11 +507,18 @@ func c19r1(c *Ctx) {
 				}
 			}
 			written := map[string]bool{}
+			helperCalls := map[ssa.Instruction]bool{}
 			for _, a := range fieldAccesses(set) {
+				if a.viaLockedHelper && ls.state[a.in] == lkU {
+					written[a.field] = true
+					helperCalls[a.in] = true
+					continue
+				}
 				if a.write && ls.state[a.in] == lkW {
 					written[a.field] = true
 				}
 			}
+			regions += len(helperCalls) // each call of a locked-store helper is one write-locked region
 			missing := []string{}
 			for g := range guarded {
 				if !written[g] {
